@@ -135,6 +135,13 @@ theorem resolve_option_only_resolves (o : Ops) (c : Core) (el out0 : Str) (hid :
   simp only [hid]
   cases b <;> simp
 
+/-- **The reported content type does not depend on either option**: the plain-text-or-HTML guess of the non-Atom formats (and with it `*_detail.type`) is made from the
+text alone — switching sanitisation or resolution on or off, or exchanging the two transformers, never changes which type a field is reported with. -/
+theorem type_guess_ignores_options (o : Ops) (c : Core) (el out0 : Str) (r s : Bool) (f : Str → Str → Str) (g : Str → Str → Str → Str) :
+    finalType { o with resolveOn := r, sanitizeOn := s, sanitize := f, resolveMarkup := g } c el out0 = finalType o c el out0 := by
+  unfold finalType contentOutput
+  rfl
+
 /-- element-level URIs are resolved whatever `resolve_relative_uris` says (the option governs embedded markup only) -/
 theorem element_uri_resolved_regardless (o : Ops) (c : Core) (el out0 : Str) (b : Bool)
     (hu : canBeRelativeUri.contains el = true) (hne : out0.isEmpty = false) (hid : el ≠ S "id")
